@@ -263,12 +263,12 @@ class Optimizer:
                 )
             )
 
+        full_penalty = self.calculate_penalty()
+        result_args["cost"] = 0.5 * np.dot(full_penalty, full_penalty)
+
         result_args["additional_penalty"] = [
             group.get_additional_penalties() for group in self._optimization_groups
         ]
-
-        full_penalty = self.calculate_penalty()
-        result_args["cost"] = 0.5 * np.dot(full_penalty, full_penalty)
 
         result_args["optimized_parameters"] = self._parameters
 
